@@ -4238,6 +4238,20 @@ fn attribute_name(name: &parser::AttributeName) -> (String, Option<String>) {
 }
 
 fn attr_value_from_name(name: &str, context: &Context) -> error::Result<String> {
+    attr_value_from_names(name, context, &mut vec![])
+}
+
+fn attr_value_from_names(
+    name: &str,
+    context: &Context,
+    expanding: &mut Vec<String>,
+) -> error::Result<String> {
+    // WFC: No Recursion
+    if expanding.iter().any(|v| v == name) {
+        return Err(error::Error::InvalidData(name.to_string()));
+    }
+    expanding.push(name.to_string());
+
     let entity = context.entity(name)?;
     let mut parsed = String::new();
     for value in entity.borrow().values().unwrap_or_default() {
@@ -4248,7 +4262,7 @@ fn attr_value_from_name(name: &str, context: &Context) -> error::Result<String> 
                 _ => unreachable!(),
             },
             XmlEntityValue::Entity(v) => {
-                let v = attr_value_from_name(v, context)?;
+                let v = attr_value_from_names(v, context, expanding)?;
                 parsed.push_str(v.as_str());
             }
             XmlEntityValue::Parameter(_) => {
@@ -4259,6 +4273,8 @@ fn attr_value_from_name(name: &str, context: &Context) -> error::Result<String> 
             XmlEntityValue::Text(v) => parsed.push_str(normalize_ws(v).as_str()),
         }
     }
+
+    expanding.pop();
     Ok(parsed)
 }
 
